@@ -25,7 +25,7 @@ LETTERS = {
     "angle": ["v2"], "bel": ["m12"], "MultiRZ": ["s"], "PauliRot": ["s"], "cond": ["s"], "adjprod": ["s", "s"],
     "sel": ["m123"],
 }
-MEAS = {"Z": [], "ham": ["s", "s"], "sum": ["s"], "herm": ["h2"], "zham": ["s", "s"]}
+MEAS = {"Z": [], "ham": ["s", "s"], "sum": ["s"], "herm": ["h2"], "zham": ["s", "s"], "pham": ["s", "s", "s"]}
 
 
 def tagval(k):
@@ -119,6 +119,9 @@ def build(w, m, labs, values, flags, cls="qs", tp="keep", shots=None):
             meas = [qp.expval(qp.Hamiltonian([nxt(), nxt()], [qp.X(l0), qp.Z(l0) @ qp.Z(l1)]))]
         elif m == "zham":
             meas = [qp.expval(qp.Z(l1)), qp.expval(qp.Hamiltonian([nxt(), nxt()], [qp.X(l0), qp.Z(l0) @ qp.Z(l1)]))]
+        elif m == "pham":  # measurements WITHOUT an observable in front of / between parametrized observables
+            meas = [qp.probs(wires=[l1]), qp.expval(qp.Hamiltonian([nxt()], [qp.Z(l0)])), qp.sample(wires=[l0]) if shots else qp.probs(wires=[l0]),
+                    qp.expval(qp.Hamiltonian([nxt(), nxt()], [qp.X(l0), qp.Z(l0) @ qp.Z(l1)]))]
         elif m == "sum":
             meas = [qp.expval(qp.s_prod(nxt(), qp.X(l0)) + qp.Z(l1)), qp.probs(wires=[l1])]
         elif m == "herm":
